@@ -171,6 +171,62 @@ fn prune_run(store0: &InMemoryBackend, key: &rustic_core::repofile::MasterKey, s
     Ok(format!("{}:{unidx}:{missing}", u8::from(clean)))
 }
 
+/// two backups (full and reduced source), then the parallel tree walker over both snapshot roots;
+/// returns "<delivered>:<dups>:<missing>:<order violations> W <nroots> <root>.. <ntrees> {<id> <nch> <ch>..}"
+/// (dense ids, delivery order)
+fn walk_run(store0: &InMemoryBackend, key: &rustic_core::repofile::MasterKey, src: &std::path::Path) -> anyhow::Result<String> {
+    let store = Arc::new(store0.clone());
+    let mut repo = open_repo(store.clone(), None, key, &repo_opts())?;
+    let _ = repo.apply_config(&small_pack_config(20_000, 3_000))?;
+    let (repo, snap1) = backup_dir(repo, src, "src", None)?;
+    let src2 = tempfile::tempdir()?;
+    let mut k = 0;
+    for e in std::fs::read_dir(src)? {
+        let e = e?;
+        k += 1;
+        if k % 2 == 0 && e.file_type()?.is_file() {
+            let _ = std::fs::copy(e.path(), src2.path().join(e.file_name()))?;
+        }
+    }
+    let (repo, snap2) = backup_dir(repo, src2.path(), "src", None)?;
+    let repo = repo.to_indexed()?;
+    let roots = vec![snap1.tree, snap2.tree];
+    let got = rustic_core::verif_hooks::c13::tree_streamer_once(&repo, roots.clone())?;
+    let mut dense: BTreeMap<String, usize> = BTreeMap::new();
+    let mut num = |id: &TreeId| -> usize {
+        let n = dense.len();
+        *dense.entry(id.to_hex().to_string()).or_insert(n)
+    };
+    let mut seen: BTreeSet<usize> = BTreeSet::new();
+    let mut listed: BTreeSet<usize> = roots.iter().map(|r| num(r)).collect();
+    let rootn: Vec<usize> = roots.iter().map(|r| num(r)).collect();
+    let (mut dups, mut order_bad) = (0, 0);
+    let mut trees = String::new();
+    for (_path, id, subs) in &got {
+        let n = num(id);
+        if !seen.insert(n) {
+            dups += 1;
+        }
+        // a tree is delivered only after a root or an earlier delivered tree named it
+        if !listed.contains(&n) {
+            order_bad += 1;
+        }
+        trees.push_str(&format!(" {n} {}", subs.len()));
+        for c in subs {
+            let cn = num(c);
+            let _ = listed.insert(cn);
+            trees.push_str(&format!(" {cn}"));
+        }
+    }
+    let missing = listed.iter().filter(|n| !seen.contains(n)).count();
+    let mut s = format!("{}:{dups}:{missing}:{order_bad} W {}", got.len(), rootn.len());
+    for r in &rootn {
+        s.push_str(&format!(" {r}"));
+    }
+    s.push_str(&format!(" {}{trees}", got.len()));
+    Ok(s)
+}
+
 fn case(line: &str) -> String {
     let mut t = Toks::new(line);
     let (seed, nsched, max_entries, max_file) = (t.u(), t.u(), t.u() as usize, t.u() as usize);
@@ -190,6 +246,17 @@ fn case(line: &str) -> String {
             c.copy_from_slice(&v[..c.len()]);
         }
         std::fs::write(src.path().join("zz_big.bin"), &buf).unwrap();
+    }
+    let wide = t.opt_s().map_or(0, |x| x.parse::<usize>().unwrap_or(0));
+    if extra & 4 == 4 && wide > 0 {
+        // the tree walker (TreeStreamerOnce: prune, check) gets one directory with `wide` differing
+        // sub-directories: far more pending tree ids at once than any small bound on its queues
+        let w = src.path().join("zz_wide");
+        for i in 0..wide {
+            let d = w.join(format!("d{i:05}"));
+            std::fs::create_dir_all(&d).unwrap();
+            std::fs::write(d.join("f"), format!("{i}")).unwrap();
+        }
     }
     if extra & 1 == 1 {
         // the stall schedule needs far more data blobs than the whole pipeline can hold
@@ -277,7 +344,22 @@ fn case(line: &str) -> String {
             }
         }
     }
-    let mut s = format!("ok tree={} nref={}{prune_note}", &outs[0].tree[..16], outs[0].refs.len());
+    let mut walk_note = String::new();
+    if extra & 4 == 4 {
+        let (tx, rx) = std::sync::mpsc::channel();
+        let (s0, k, p) = (store0.clone(), key.clone(), src.path().to_path_buf());
+        let _h = std::thread::spawn(move || {
+            let r = std::panic::catch_unwind(std::panic::AssertUnwindSafe(|| walk_run(&s0, &k, &p)));
+            let _ = tx.send(r);
+        });
+        match rx.recv_timeout(Duration::from_secs(120)) {
+            Err(_) => return "hang tree walker (TreeStreamerOnce over both snapshot roots)".to_string(),
+            Ok(Err(_)) => return "panic tree walker".to_string(),
+            Ok(Ok(Err(e))) => return format!("err tree walker {}", e.to_string().replace('\n', " ")),
+            Ok(Ok(Ok(note))) => walk_note = format!(" walk={note} ;"),
+        }
+    }
+    let mut s = format!("ok tree={} nref={}{prune_note}{walk_note}", &outs[0].tree[..16], outs[0].refs.len());
     for (j, o) in outs.iter().enumerate() {
         let mut h = Sha256::new();
         for (t, id) in &o.refs {
